@@ -56,6 +56,9 @@ func c14Rec(name string, args ...string) string {
 	return name + "(" + strings.Join(args, ",") + ")"
 }
 
+type c14Label string
+type c14Dur int64
+
 type c14Obj struct{}
 
 func (c14Obj) M2(a, b string) string   { return c14Rec("vm2", a, b) }
@@ -108,6 +111,9 @@ func c14Init() {
 	s.AddGlobal("cvint", func(i int) string { return fmt.Sprint(i) })
 	s.AddGlobal("cvfloat64", func(f float64) string { return fmt.Sprint(f) })
 	s.AddGlobal("cvstring", func(x string) string { return x })
+	s.AddGlobal("cvint64", func(i int64) string { return fmt.Sprint(i) })
+	s.AddGlobal("cvvarstr", func(r ...string) string { return strings.Join(r, ",") })
+	s.AddGlobal("nlabel", c14Label("lbl")).AddGlobal("ndur", c14Dur(5))
 	s.AddGlobal("cvbytes", func(b []byte) string { return string(b) })
 	s.AddGlobal("cviface", func(x interface{}) string { return fmt.Sprint(x) })
 	s.AddGlobal("cvvarint", func(r ...int) string {
